@@ -267,9 +267,25 @@ func runC08(c *core.Ctx) {
 	// (ii-b) a receiver that decodes successive inputs into the same PHYPayload value
 	m := c.N(20000, 20000000)
 	var reused lorawan.PHYPayload
+	// frames the receive loop kept by value (queued for forwarding) while it went on decoding into the same variable
+	type keptFrame struct {
+		phy  lorawan.PHYPayload
+		wire []byte
+	}
+	var queue []keptFrame
 	for i := int64(0); i < m; i++ {
 		if !c.Mine("reused-receiver", i) {
 			continue
+		}
+		if len(queue) >= 3 {
+			for _, kf := range queue {
+				c.Eval(1)
+				if out, err := kf.phy.MarshalBinary(); err != nil || !bytes.Equal(out, kf.wire) {
+					c.Violate("C08|kept-frame-changed", "a received frame kept by value (%x) re-encodes as %x (%v) after the same variable received later frames", kf.wire, out, err)
+					break
+				}
+			}
+			queue = queue[:0]
 		}
 		r := c.RNG("reused-receiver", i)
 		mt := 2 + r.Intn(4)
@@ -296,6 +312,8 @@ func runC08(c *core.Ctx) {
 		if err != nil || !bytes.Equal(out, b) {
 			c.Violate(fmt.Sprintf("C08|reused-receiver|mtype=%d", mt), "a PHYPayload value that decoded other frames before accepts %x but re-encodes it as %x (%v)", b, out, err)
 			reused = lorawan.PHYPayload{}
+		} else {
+			queue = append(queue, keptFrame{reused, b})
 		}
 		c.Shape("reused", mt, lenClassName(len(b)))
 	}
